@@ -45,12 +45,12 @@ func c03Seq(k int) []string {
 	return nil
 }
 
-var c03Places = []string{"body", "li", "blockquote", "layout-td", "data-td", "body-loose", "div-loose"}
+var c03Places = []string{"body", "li", "blockquote", "layout-td", "data-td", "body-loose", "div-loose", "deep-div"}
 
 func init() {
 	register(&Prop{
 		ID: "C03",
-		Rule: "even cases: random G-article pages whose paragraphs use only text, <br>, attribute-free b/i/em/strong/span/u/code/font, links and javascript: links; odd cases: the enumeration of all child sequences of length <=4 over {text, br, inline, link, js-link with one text child, js-link with other children} (1554 sequences) x 7 placements (body, li, blockquote, layout td, data td, loose text directly in <body>, loose text in a <div>), each as one paragraph inside a small article, with paragraph lengths chosen around the keep/drop boundary. Non-trivial = a simple paragraph observed fully kept or fully dropped; distinct = distinct (placement, child-sequence shape, kept/dropped).",
+		Rule: "even cases: random G-article pages whose paragraphs use only text, <br>, attribute-free b/i/em/strong/span/u/code/font, links and javascript: links; odd cases: the enumeration of all child sequences of length <=4 over {text, br, inline, link, js-link with one text child, js-link with other children} (1554 sequences) x 8 placements (body, li, blockquote, layout td, data td, loose text directly in <body>, loose text in a <div>, under 20..420 nested wrapper divs), each as one paragraph inside a small article, with paragraph lengths chosen around the keep/drop boundary. Non-trivial = a simple paragraph observed fully kept or fully dropped; distinct = distinct (placement, child-sequence shape, kept/dropped).",
 		Assumptions: []string{
 			"'visible word of the paragraph' = token the generator wrote into that <p>",
 			"inline elements carrying class/id/rel/itemprop are not generated (byline/share/unlikely rules legitimately remove those)",
@@ -191,6 +191,12 @@ func (c *Ctx) runC03Enum(idx int) (*artRun, bool) {
 	switch place {
 	case "body", "body-loose", "div-loose":
 		target()
+	case "deep-div":
+		// the paragraph sits under many wrapper elements (legal, if unusual, nesting)
+		depth := 20 + (k*13)%400
+		g.w(strings.Repeat("<div>", depth))
+		target()
+		g.w(strings.Repeat("</div>", depth))
 	case "li":
 		g.w("<ul><li>" + g.toks(1+r.Intn(3)) + "</li><li>")
 		target()
